@@ -1931,11 +1931,18 @@ def camp_c17(rnd, tier):
         # every k below 128, including the ones for which the upper half is searched with k - popcount(low) >= 64
         b.util("select_in_word_u128", w=bits_of(w, 128), ks=[k for k in sorted(set(ks + [64, 64 + lo, 100])) if 0 <= k < 128])
     # popcnt_wide
-    for n in (0, 1, 2, 3, 4, 5, 6, 7, 8, 16):
-        for _ in range(3 if tier == "quick" else 20):
-            L = rnd.choice([n, n + 1, n + 5, max(0, n - 1), 0])
-            ws = [rnd.choice([0, (1 << 64) - 1, rnd.getrandbits(64)]) for _ in range(L)]
-            b.util("popcnt_wide", n=n, ws=[bits_of(x, 64) for x in ws])
+    for n in (0, 1, 2, 3, 4, 5, 6, 7, 8, 12, 16):
+        # every slice length around N (shorter, equal, longer), all-ones words and random ones
+        Ls = list(range(0, n + 3)) + [n + 5] if n <= 8 else sorted(set([0, 1, 3, 4, 5, 7, 8, 9, n - 4, n - 3, n - 2, n - 1, n, n + 1, n + 5]))
+        for L in Ls:
+            for style in (("ones", "rand") if tier == "quick" else ("ones", "rand", "rand", "mix")):
+                if style == "ones":
+                    ws = [(1 << 64) - 1] * L
+                elif style == "rand":
+                    ws = [rnd.getrandbits(64) for _ in range(L)]
+                else:
+                    ws = [rnd.choice([0, (1 << 64) - 1, rnd.getrandbits(64)]) for _ in range(L)]
+                b.util("popcnt_wide", n=n, ws=[bits_of(x, 64) for x in ws])
     # msb
     for ty in UTYPES:
         bits = TY_BITS[ty]
